@@ -262,7 +262,7 @@ func ruleC02RefSiblings(c *Ctx) {
 			n++
 			okG := false
 			for _, g := range guardsOf(call) {
-				if c.mentionsField(g.Cond, "Resolved.draft", 6) && c.mentionsField(g.Cond, "Schema.Ref", 6) {
+				if c.condMentions(g.Cond, "Resolved.draft") && c.condMentions(g.Cond, "Schema.Ref") {
 					okG = true
 				}
 			}
@@ -763,4 +763,34 @@ func ruleIDFragmentRefused(c *Ctx, rule string) {
 		})
 	}
 	c.R.Floor(rule, "places where an $id becomes a base URI", n, 1)
+}
+
+// condMentions: the condition reads the named field, directly or inside a package predicate it is the result of
+// (refSiblingsIgnored(rs.draft, s) reads s.Ref).
+func (c *Ctx) condMentions(cond ssa.Value, field string) bool {
+	if c.mentionsField(cond, field, 6) {
+		return true
+	}
+	call, ok := cond.(*ssa.Call)
+	if !ok {
+		return false
+	}
+	h := call.Call.StaticCallee()
+	if h == nil || !c.P.InPkg(h) || len(h.Blocks) == 0 {
+		return false
+	}
+	for _, a := range call.Call.Args {
+		if c.mentionsField(a, field, 6) {
+			return true
+		}
+	}
+	found := false
+	core.EachInstr(h, func(i ssa.Instruction) {
+		if fa, ok := i.(*ssa.FieldAddr); ok && c.fieldName(fa.X.Type(), fa.Field) == field {
+			if _, isParam := fa.X.(*ssa.Parameter); isParam {
+				found = true
+			}
+		}
+	})
+	return found
 }
